@@ -176,14 +176,26 @@ class FsFaults:
         self.fault = None        # (op index, action tuple)
         self.saved = {}
         self.active = False
+        self.fired = False
 
     def op(self, kind, path, extra=None):
         self.ops.append((kind, str(path), extra))
         return len(self.ops) - 1
 
     def action(self, idx):
-        if self.fault is not None and self.fault[0] == idx:
-            return self.fault[1]
+        f = self.fault
+        if f is None:
+            return None
+        if f[0] == "match":
+            # ("match", "kind|kind", nth, action): the nth operation of one of these kinds, whatever its index
+            kinds = f[1].split("|")
+            if self.ops[idx][0] in kinds and sum(1 for o in self.ops[:idx + 1] if o[0] in kinds) == f[2] + 1:
+                self.fired = True
+                return f[3]
+            return None
+        if f[0] == idx:
+            self.fired = True
+            return f[1]
         return None
 
     # generic wrapper for "one syscall" operations
